@@ -21,7 +21,9 @@ RULE = ("exhaustive over small key / slice / shape families + seeded random stre
 EXPLANATION = ("Theorems (Props/W3C04.v, W3C02.v, W3C19.v) are stated over Gen/GenUtils3.v, regenerated from pyttb_utils.py on this run; "
                "the correspondence stream runs the same generated functions and every Np/NpZ3.v primitive against pyttb / numpy.")
 SHARD = 300
-CORRESPONDENCE_ONLY = ["method_allsubs (general enumeration statement allsubs_enumerates_stmt: only no-mode / one-mode cases are proved)"]
+# method_allsubs: the general enumeration statement allsubs_enumerates_stmt (Proofs/W3Methods2.v) is proved since wave 5 by w5-C17
+# (Proofs/C17Allsubs.v allsubs_enumerates; stated and checked in Props/C17w5.v C17_gen_allsubs_all_shapes by ./check C17)
+CORRESPONDENCE_ONLY = []
 
 
 # ------------------------------------------------------------------------------------------------- literals
